@@ -267,7 +267,15 @@ func (ss *StyledString) Len() int {
 func (ss *StyledString) Encode() string {
 	bldr := &strings.Builder{}
 	cursor := Style{}
-	for _, next := range ss.Cells {
+	for i, next := range ss.Cells {
+		if i > 0 && joinsCluster(ss.Cells[i-1].Grapheme, next.Grapheme) {
+			// Written back to back the two texts would be read as one
+			// grapheme cluster, that is, as one cell. A control
+			// sequence between them keeps them apart: start the style
+			// over
+			bldr.WriteString(sgrReset)
+			cursor = Style{Hyperlink: cursor.Hyperlink, HyperlinkParams: cursor.HyperlinkParams}
+		}
 		if cursor.Foreground != next.Foreground {
 			fg := next.Foreground
 			ps := fg.Params()
